@@ -9,7 +9,7 @@ sys.path.insert(0, os.path.dirname(os.path.abspath(__file__)))
 sys.path.insert(0, os.path.join(os.path.dirname(os.path.abspath(__file__)), "..", "replay"))
 from common import args, isolate_models, Report
 A = args()
-isolate_models(["tx2"])
+isolate_models(["tx2", "zen2"])
 R = Report("(1) klen 50..130 x 9 worker counts, partition probe; (2) real processes on kernels of 50..66 lines x 6 worker counts; distinct = distinct (klen, workers)", exhaustive=False)
 from replay import probe as more
 
@@ -84,6 +84,38 @@ for klen in sizes:
             R.fail("C16/parallel-vs-sequential", "C16:parallel", f"klen={klen} workers={workers}: parallel search found {len(par)} LCDs, sequential {len(seq)}; missing {sorted(set(seq) - set(par))[:5]}", dict(klen=klen, workers=workers))
         elif par_order != seq_order:
             R.fail("C16/result-order", "C16:order", f"klen={klen} workers={workers}: order of the reported dependencies differs from the sequential search", dict(klen=klen, workers=workers))
+# (2b) x86: operand-less instructions whose hidden operands carry a dependency on themselves ('cltq': rax -> rax) are roots
+# like every other line - in the workers as in the sequential search
+mm_x, parser_x = MachineModel(arch="zen2"), get_parser("x86")
+sem_x = ArchSemantics(mm_x)
+
+
+def lcds_x86(klen, workers, threshold):
+    regs = ["%rbx", "%rcx", "%rdx", "%rsi", "%rdi", "%r8", "%r9", "%r10", "%r11", "%r12", "%r13", "%r14", "%r15"]
+    lines = []
+    for i in range(klen):
+        lines.append("cltq" if i in (5, klen - 3) else ".L%d:" % i if i == 17 else "addq $1, %s" % regs[i % len(regs)])
+    k = parser_x.parse_file("\n".join(lines) + "\n"); sem_x.add_semantics(k)
+    saved = (K.cpu_count, KernelDG.INSTRUCTION_THRESHOLD)
+    K.cpu_count = lambda: workers
+    KernelDG.INSTRUCTION_THRESHOLD = threshold
+    try:
+        dg = KernelDG(k, parser_x, mm_x, sem_x, timeout=-1)
+        return {key: (v["latency"], [x.line_number for x, _ in v["dependencies"]]) for key, v in dg.get_loopcarried_dependencies().items()}
+    finally:
+        K.cpu_count, KernelDG.INSTRUCTION_THRESHOLD = saved
+
+
+_delays.clear()
+for klen in (50, 57):
+    seq = lcds_x86(klen, 1, 10**9)
+    if not any(len(v[1]) >= 1 and set(v[1]) <= {6, klen - 2} for v in seq.values()):
+        R.fail("C16/x86-kernel-not-discriminating", "C16:x86-kernel", f"klen={klen}: the sequential search reports no dependency through the cltq lines: {sorted(seq)[:6]}")
+    for workers in (1, 3, 16):
+        par = lcds_x86(klen, workers, 50)
+        R.case(("real-x86", klen, workers), sample=dict(isa="x86", klen=klen, workers=workers, lcds=len(par)))
+        if par != seq:
+            R.fail("C16/parallel-vs-sequential", "C16:parallel", f"x86 klen={klen} workers={workers}: parallel search found {len(par)} LCDs, sequential {len(seq)}; missing {sorted(set(seq) - set(par))[:5]}", dict(klen=klen, workers=workers, isa="x86"))
 # (3) the same command in fresh processes with different string-hash seeds: text report and --yaml-out identical apart from
 # the timestamp (iteration orders of sets of strings differ between processes)
 import subprocess, tempfile, re as _re
